@@ -14,6 +14,7 @@ import (
 	"strings"
 	"sync/atomic"
 	"syscall"
+	"time"
 	"unsafe"
 )
 
@@ -215,6 +216,7 @@ type request struct {
 	Level   int      `json:"level,omitempty"`
 	Skip    []string `json:"skip,omitempty"` // cases ("<key>#<ev>") that killed a worker before: not evaluated again
 	Visited string   `json:"visited,omitempty"`
+	Until   int64    `json:"until,omitempty"`  // unix nanoseconds: stop cleanly (Cut) when the internal deadline has passed
 	Prefix  string   `json:"prefix,omitempty"` // family name: the visited set is keyed by hash(prefix NUL key)
 	B       Bounds   `json:"b"`
 	Pool    []string `json:"pool"`
@@ -269,7 +271,11 @@ type response struct {
 	Found     bool           `json:"found,omitempty"`
 	Hits      int            `json:"hits,omitempty"`
 	Sample    *sampleRec     `json:"sample,omitempty"`
+	Done      int            `json:"done,omitempty"` // expand: number of states of the batch that were expanded completely
+	Cut       bool           `json:"cut,omitempty"`  // the deadline passed before the request was finished
 }
+
+func (rq *request) late() bool { return rq.Until != 0 && time.Now().UnixNano() > rq.Until }
 
 func keyHash(k string) [16]byte {
 	h := sha256.Sum256([]byte(k))
@@ -335,6 +341,10 @@ func (ws *workerState) serve(rq *request) *response {
 		rp.ByClass = map[string]int{}
 		rp.OutHist = map[string]int{}
 		for i, k := range rq.Keys {
+			if rq.late() {
+				rp.Cut = true
+				break
+			}
 			s, err := ParseKey(k)
 			if err != nil {
 				rp.Err = err.Error()
@@ -344,6 +354,7 @@ func (ws *workerState) serve(rq *request) *response {
 			if rp.Err != "" {
 				return rp
 			}
+			rp.Done++
 		}
 		return rp
 	}
@@ -517,6 +528,10 @@ func (ws *workerState) dfs(rq *request, rp *response, s *State, level, depthLeft
 	for i, e := range evs {
 		if skip[rawKey+"#"+strconv.Itoa(i)] {
 			continue
+		}
+		if rp.Cut || rq.late() {
+			rp.Cut = true
+			return
 		}
 		progress.begin(rawKey, true, i)
 		res, err := evalCase(s, e, false, rq.B.R, maxEvals(rq.B.R), nil)
